@@ -48,8 +48,12 @@ func runExtras(eng *Engine, id, tier string, seed int64, work string) []extraRes
 		res = append(res, runBoundedCurves(eng, work, id, []string{"encode"}))
 	case "C14":
 		res = append(res, runBoundedCurves(eng, work, id, []string{"decode16.below-identity-margin"}))
-	case "C10", "C15":
+	case "C10":
 		res = append(res, runLeanLifting())
+		res = append(res, runBoundedImages(eng, work, "linear", "linear", []string{"transform."}))
+	case "C15":
+		res = append(res, runLeanLifting())
+		res = append(res, runBoundedImages(eng, work, "prism", ".", []string{"convert."}))
 	case "C08":
 		res = append(res, runBoundedICC(eng, work, tier, seed, []string{"delivery."}))
 	case "C17":
@@ -186,6 +190,78 @@ func runLeanLifting() extraResult {
 	}
 	r.Discharged = 1
 	r.Samples = append(r.Samples, map[string]interface{}{"lemma": "lifting (lemmas/Lifting.lean): per-iteration footprint/frame facts + disjoint footprints + every pixel exactly once ==> whole-image statement, any iteration order", "backend": "lean 4", "axioms": strings.TrimSpace(text)})
+	return r
+}
+
+// runBoundedImages injects /verif/bounded/images_test.go.tmpl (+ the package's body) with -overlay and runs the real
+// image functions over the enumerated images against their per-pixel definition (bounded, never counted as proved).
+func runBoundedImages(eng *Engine, work, pkg, pkgDir string, prefixes []string) extraResult {
+	r := extraResult{Obligations: 1}
+	read := func(name string) ([]byte, error) {
+		b, err := os.ReadFile(filepath.Join(verifDir, "bounded", name))
+		if err != nil {
+			b, err = os.ReadFile(filepath.Join("/verif/bounded", name))
+		}
+		return b, err
+	}
+	tmpl, err1 := read("images_test.go.tmpl")
+	body, err2 := read("images_" + pkg + ".body")
+	if err1 != nil || err2 != nil {
+		r.Failures = append(r.Failures, extraFailure{Name: "bounded.images#setup", Reason: "harness template missing"})
+		return r
+	}
+	src := strings.ReplaceAll(strings.ReplaceAll(string(tmpl), "@PKG@", pkg), "@BODY@", string(body))
+	f := filepath.Join(work, "bounded_images_"+pkg+"_test.go")
+	os.WriteFile(f, []byte(src), 0o644)
+	overlay := map[string]map[string]string{"Replace": {filepath.Join(eng.repoDir, pkgDir, "vcgo_bounded_images_test.go"): f}}
+	ovb, _ := json.Marshal(overlay)
+	ovf := filepath.Join(work, "overlay_bounded_images_"+pkg+".json")
+	os.WriteFile(ovf, ovb, 0o644)
+	outf := filepath.Join(work, "bounded_images_"+pkg+".json")
+	cmd := exec.Command("go", "test", "-overlay", ovf, "-vet=off", "-count=1", "-timeout", "600s", "-run", "TestVcgoBoundedImages", "./"+pkgDir)
+	cmd.Dir = eng.repoDir
+	cmd.Env = append(goEnv(), "VCGO_BOUNDED_OUT="+outf)
+	b, _ := cmd.CombinedOutput()
+	var res struct {
+		Evaluations int64  `json:"evaluations"`
+		Domain      string `json:"domain"`
+		Failures    []struct {
+			Check string `json:"check"`
+			Index int    `json:"index"`
+			Got   string `json:"got"`
+		} `json:"failures"`
+	}
+	jb, e2 := os.ReadFile(outf)
+	if e2 != nil || json.Unmarshal(jb, &res) != nil {
+		r.Failures = append(r.Failures, extraFailure{Name: "bounded.images." + pkg + "#run", Reason: "bounded harness did not complete (a panic in the image function, or a build problem)", Detail: firstLines(string(b), 30), Witness: strings.Contains(string(b), "panic")})
+		return r
+	}
+	bad := false
+	for _, fl := range res.Failures {
+		match := false
+		for _, pre := range prefixes {
+			if strings.HasPrefix(fl.Check, pre) {
+				match = true
+			}
+		}
+		if !match {
+			continue
+		}
+		bad = true
+		r.Failures = append(r.Failures, extraFailure{Name: "bounded.images#" + fl.Check,
+			Reason:  "the real image function, run on an enumerated image, differs from the per-pixel definition",
+			Detail:  fmt.Sprintf("check %s rectangle #%d: %s", fl.Check, fl.Index, fl.Got),
+			Witness: true})
+	}
+	if !bad {
+		r.Discharged = 1
+	}
+	r.Bounded = map[string]interface{}{
+		"name": "whole-image behaviour of the image functions", "label": "bounded (execution of the real code, not deduction)",
+		"domain": res.Domain, "exhaustive": false, "evaluations": res.Evaluations, "checks": prefixes,
+		"oracle": "draw.Draw with Src (conversion helpers); dst.Set(p - src.Min + dst.Min, transformColor(src.At(p))) on a copy of the parent (TransformImageColor)",
+	}
+	r.Samples = append(r.Samples, map[string]interface{}{"bounded": "whole parent buffer after TransformImageColor / every pixel after ConvertImageTo* equals the definition, for every enumerated image and parallelism"})
 	return r
 }
 
